@@ -215,12 +215,28 @@ theorem C06_min_size_zero_counterexample :
     ∀ k, sizeStep oscCfg0 0 ((sizeStep oscCfg0 0)^[k] (0, 1)) ≠ (sizeStep oscCfg0 0)^[k] (0, 1) :=
   osc0_never_settles
 
+/-- **The smoothed load is this balancer's own.**  Take the `_AdjustAperture` records of a whole run of the
+    model, in call order (`adjRecords`: the records of the first operation, then those of the second, …).  The
+    Ema held no sample before the first record (`prev = none`), and before every later record it held exactly
+    the value the record before it left (`prev = some avg` of the predecessor): nothing but this balancer's own
+    samples moves its smoothed load — whatever the traffic, the clock, the membership changes, the opens and
+    the jitter rounds in between.  The value held after the run is the one the last record left. -/
+theorem C06_smoothed_load_is_own (cfg : Cfg) (ops : List Op) (hwf : wf cfg ops = true) :
+    (∀ r rest, adjRecords (comp6.modelTrace cfg ops) = r :: rest → r.prev = none) ∧
+    (∀ pre r r' post, adjRecords (comp6.modelTrace cfg ops) = pre ++ r :: r' :: post → r'.prev = some r.avg) ∧
+    (runSt cfg (init cfg) ops).sub.ema = heldAfter none (adjRecords (comp6.modelTrace cfg ops)) := by
+  obtain ⟨h1, h2⟩ := trace_own cfg ops { ref := cfg.initial } (init cfg) (fun _ => rfl) (wf_proto hwf)
+  have h1' : chainB none (adjRecords (comp6.modelTrace cfg ops)) = true := h1
+  refine ⟨fun r rest e => ?_, fun pre r r' post e => ?_, h2⟩
+  · rw [e] at h1'; exact chainB_head h1'
+  · rw [e] at h1'; exact chainB_pair h1'
+
 /-- **C06, specification level.**  For every configuration and every operation list satisfying `wf6`
     (the hypothesis predicate of component `aperture`), the history of the model satisfies the executable
     specification `specC06` — the predicate the harness evaluates on the implementation's observations. -/
 theorem C06_model_satisfies_spec (cfg : Cfg) (ops : List Op) (hwf : comp6.wf cfg ops = true) :
     specC06 cfg (comp6.modelTrace cfg ops) = .ok :=
-  specC06_trace cfg ops _ _ 0 (RInv.init cfg) (TInv.init cfg) (wf_proto (wf6_wf hwf)) (wf6_legal hwf)
+  specC06_trace cfg ops _ _ 0 (RInv.init cfg) (TInv.init cfg) (fun _ => rfl) (wf_proto (wf6_wf hwf)) (wf6_legal hwf)
 
 /-! non-vacuity: concrete instances of the hypotheses -/
 
